@@ -41,14 +41,18 @@ class Features:
     max_modules: int = 6
     overrides: bool = False          # member names shared along class hierarchies (class var / instance var / method overrides)
     name_salt: Optional[int] = None  # permutes the alphabetical order of module names without changing the structure
+    rebind: bool = False             # C03: later definitions that differ from the earlier one (docstring dropped, other decorator, other literal type, other kind)
+    local_imports: bool = False      # C04: function-local imports under names the enclosing scope binds to something else; class-level imports of names used earlier in the class body
+    late_rebind: bool = False        # C05: a base name is rebound (import-as / assignment) after the class statement that used it
+    bottom_imports: bool = False     # C06: real module-level import cycles through imports at the bottom of a module
 
     @classmethod
     def namespace(cls) -> 'Features':       # C03
-        return cls(reexports=False, star=True, duplicates=False)
+        return cls(reexports=False, star=True, duplicates=True, rebind=True)
 
     @classmethod
     def resolution(cls) -> 'Features':      # C04
-        return cls(reexports=False, star=True, duplicates=False, main_blocks=False)
+        return cls(reexports=False, star=True, duplicates=False, main_blocks=False, local_imports=True)
 
     @classmethod
     def history(cls) -> 'Features':         # C02
@@ -234,6 +238,37 @@ class _Gen:
         self.spec.notes['qual2uid'][(mid, qual)] = uid
         return it
 
+    def make_dup(self, d: Item, in_class: bool) -> Item:
+        """a later definition of the same name; with `rebind` it differs from the first in what the interpreter reports"""
+        r = self.r
+        if not self.f.rebind:
+            dup = dataclasses.replace(d, members=list(d.members))
+            dup.doc = (d.doc or '') + ' second definition.'
+            return dup
+        if d.kind == 'func':
+            k = r.random()
+            if k < .15:
+                # a variable first, the function afterwards is what counts -- emitted the other way round by the caller
+                pass
+            dup = dataclasses.replace(d, members=[])
+            dup.doc = r.choice([None, None, (d.doc or 'Doc.') + ' second definition.'])
+            if in_class:
+                dup.deco = r.choice([None, None, 'classmethod', 'staticmethod', 'old-classmethod', 'old-staticmethod', 'noop', d.deco])
+                if d.deco in ('property', 'property+setter') or dup.deco in ('property', 'property+setter'):
+                    dup.deco = d.deco
+                first = {'classmethod': 'cls', 'old-classmethod': 'cls', 'staticmethod': '', 'old-staticmethod': ''}.get(dup.deco or '', 'self')
+                dup.sig = '(' + first + ')' if dup.deco not in ('property', 'property+setter') else d.sig
+            dup.is_async = (not d.is_async) if (r.random() < .3 and dup.deco in (None, 'noop')) else (d.is_async and dup.deco in (None, 'noop'))
+            return dup
+        if d.kind == 'var':
+            value, typ = r.choice([lt for lt in LITERALS if lt[0] != d.value])
+            dup = dataclasses.replace(d, value=value, returns=typ, members=[])
+            dup.doc = r.choice([None, d.doc, f'Doc of variable {d.name}, rebound.'])
+            return dup
+        dup = dataclasses.replace(d, members=list(d.members))
+        dup.doc = r.choice([None, (d.doc or '') + ' second definition.'])
+        return dup
+
     def make_var(self, mid: int, scope: str, refs: List[str]) -> Item:
         r = self.r
         uid = self.new_uid()
@@ -275,8 +310,8 @@ class _Gen:
                 a.add(c[1])
                 a |= anc.get(c[1], set())
             anc[uid] = a
-        elif r.random() < .12:
-            it.bases = [r.choice(['Exception', 'ValueError', 'object', 'dict'])]
+        elif r.random() < .2:
+            it.bases = [r.choice(['Exception', 'ValueError', 'object', 'dict', 'KeyError', 'Exception'])]
             it.base_uids = [None]
         it.doc = self.doc(f'class {name}', refs)
         qual = (scope + '.' if scope else '') + name
@@ -297,8 +332,10 @@ class _Gen:
                 mem = Item(kind='block', block=r.choice(BLOCKS), members=[mem])
             it.members.append(mem)
             if self.f.duplicates and mem.kind == 'func' and r.random() < .15:
-                dup = dataclasses.replace(mem, doc=(mem.doc or '') + ' second definition.')
+                dup = self.make_dup(mem, True)
                 it.members.append(Item(kind='dup', members=[dup], name=mem.name, uid=mem.uid))
+            elif self.f.rebind and mem.kind == 'var' and r.random() < .3:
+                it.members.append(Item(kind='dup', members=[self.make_dup(mem, True)], name=mem.name, uid=mem.uid))
         if self.f.overrides:
             for fam in ('ov1', 'ov2'):
                 k = r.random()
@@ -473,6 +510,7 @@ class _Gen:
         # definitions
         ndefs = r.randint(2, 6)
         exports: List[Tuple[str, int, str]] = []
+        deferred: List[Item] = []
         for _ in range(ndefs):
             k = r.random()
             if k < .45:
@@ -487,12 +525,21 @@ class _Gen:
             if f.blocks and r.random() < .2:
                 d = Item(kind='block', block=r.choice(BLOCKS), members=[d])
             items.append(d)
-            if f.duplicates and r.random() < .12 and d.kind in ('class', 'func'):
+            if f.duplicates and r.random() < (.3 if f.rebind else .12) and d.kind in ('class', 'func'):
                 # a second definition of the same name (the later one wins)
-                dup = dataclasses.replace(d, members=list(d.members))
-                dup.doc = (d.doc or '') + ' second definition.'
-                items.append(Item(kind='dup', members=[dup], name=d.name, uid=d.uid))
+                dup = self.make_dup(d, False)
+                if f.rebind and r.random() < .5:
+                    # the second definition comes after the definitions that follow (a subclass may sit between the two)
+                    deferred.append(Item(kind='dup', members=[dup], name=d.name, uid=d.uid))
+                else:
+                    items.append(Item(kind='dup', members=[dup], name=d.name, uid=d.uid))
                 s.notes.setdefault('dups', []).append(d.uid)
+            elif f.rebind and d.kind == 'var' and r.random() < .35:
+                items.append(Item(kind='dup', members=[self.make_dup(d, False)], name=d.name, uid=d.uid))
+            if f.rebind and d.kind in ('class', 'func') and r.random() < .1:
+                # the name held a plain value before the definition: the definition is what the interpreter ends up with
+                items.insert(len(items) - 1 - (1 if items[-1].kind == 'dup' else 0), Item(kind='raw', text=f'{d.name} = {r.choice(["0", "None", "[]"])}'))
+        items.extend(deferred)
         if f.zope and r.random() < .35:
             items.insert(0, Item(kind='raw', text='from zope.interface import Interface, implementer'))
             iu = self.new_uid()
@@ -537,6 +584,46 @@ class _Gen:
             s.notes['qual2uid'][(m.mid, cname)] = cu
             items.append(ci)
             exports.append((cname, cu, 'class'))
+        if f.local_imports and earlier:
+            bound_here = {b[0] for it in items if it.kind == 'import' for b in it.binds}
+            star_srcs = {it.star_from for it in items if it.kind == 'import' and it.star_from}
+            # (1) a function body imports something else under a name this module (or a class of it) already binds:
+            #     the function's local scope, never the enclosing one, receives that binding
+            targets = [b for it in items if it.kind == 'import' for b in it.binds] + [(d.name, 'obj', d.uid) for d in items if d.kind in ('class', 'func')]
+            for _ in range(r.randint(0, 2)):
+                if not targets:
+                    break
+                ln = r.choice(targets)[0]
+                src = r.choice(earlier)
+                n2, uid2, kind2 = r.choice(self.exports[src.mid])
+                hu = self.new_uid()
+                imp = r.choice([f'from {self.rel_or_abs(m.mid, src.mid)} import {n2} as {ln}', f'import {s.modname(src.mid)} as {ln}'])
+                if r.random() < .5:
+                    items.append(Item(kind='raw', text=f'def loc{hu}():\n    {imp}\n    return {ln}', name=f'loc{hu}'))
+                else:
+                    items.append(Item(kind='raw', text=f'class L{hu}:\n    def meth{hu}(self):\n        {imp}\n        return {ln}\n    lv{hu} = 1', name=f'L{hu}'))
+            # (2) a class body uses a module-level name and binds the same name itself afterwards, by an import
+            src = r.choice(earlier)
+            # classes and functions only: the reference identifies them by their definition site, plain values only by name
+            cands = [e for e in self.exports[src.mid] if e[2] in ('class', 'func') and e[0] not in bound_here and s.modname(src.mid) not in star_srcs and not any(d.name == e[0] for d in items)]
+            others = [(x, e) for x in earlier for e in self.exports[x.mid] if e[2] in ('class', 'func')]
+            if cands and others and r.random() < .6:
+                n, uid, kind = r.choice(cands)
+                x2, (n2, uid2, kind2) = r.choice(others)
+                if uid2 != uid and s.modname(x2.mid) not in star_srcs:
+                    cu = self.new_uid()
+                    cname = f'C{cu}'
+                    items.append(Item(kind='import', text=f'from {self.rel_or_abs(m.mid, x2.mid)} import {n2} as {n}', binds=[(n, 'obj', uid2)]))
+                    ci = Item(kind='class', name=cname, uid=cu, doc=None)
+                    ci.members.append(Item(kind='raw', text=f'use{cu} = {n}'))
+                    if kind2 == 'class' and r.random() < .5:
+                        ci.members.append(Item(kind='raw', text=f'class In{cu}({n}):\n    pass'))
+                    ci.members.append(Item(kind='import', text=f'from {self.rel_or_abs(m.mid, src.mid)} import {n}', binds=[(n, 'obj', uid)]))
+                    ci.members.append(self.make_var(m.mid, cname, refs))
+                    s.defs[cu] = (m.mid, cname, 'class')
+                    s.notes['qual2uid'][(m.mid, cname)] = cu
+                    items.append(ci)
+                    exports.append((cname, cu, 'class'))
         if f.main_blocks and r.random() < .3:
             hu = self.new_uid()
             items.append(Item(kind='main', members=[Item(kind='raw', text=f'class Hidden{hu}: pass'), Item(kind='raw', text=f'def hidden{hu}(): pass')]))
